@@ -210,7 +210,94 @@ func sameEntities(a, b []tg.MessageEntityClass) bool {
 	return true
 }
 
+// wide values: around and beyond 2^31 and 2^32 (entity offsets and lengths are Go ints)
+func wideValue(r *rand.Rand) int {
+	switch r.IntN(9) {
+	case 0:
+		return 1<<31 - 1
+	case 1:
+		return 1 << 31
+	case 2:
+		return 1<<31 + 1
+	case 3:
+		return 1 << 32
+	case 4:
+		return 1<<32 + 5
+	case 5:
+		return 1 << 40
+	case 6:
+		return 1<<32 + r.IntN(16)
+	}
+	bits := 33 + r.IntN(30) // 33..62-bit
+	return 1<<(bits-1) | int(r.Uint64()&(1<<(bits-1)-1))
+}
+
+// distinctValues: n distinct values mixing small and wide ones.
+func distinctValues(r *rand.Rand, n int) []int {
+	seen := map[int]bool{}
+	var out []int
+	for len(out) < n {
+		v := r.IntN(12)
+		if r.IntN(2) == 0 {
+			v = wideValue(r)
+		}
+		if !seen[v] {
+			seen[v] = true
+			out = append(out, v)
+		}
+	}
+	return out
+}
+
+// genWideList: lists with values ≥ 2^31. In the first three shapes the pair relations are such
+// that even the shipped comparator is a valid order (a longer entity never starts after a shorter
+// one), so the expected order is unambiguous; the fourth is a free mix.
+func genWideList(r *rand.Rand) (string, []tg.MessageEntityClass) {
+	n := 2 + r.IntN(11)
+	list := make([]tg.MessageEntityClass, n)
+	class := ""
+	switch r.IntN(4) {
+	case 0:
+		class = "wide/equal-lengths-distinct-offsets"
+		ln := []int{3, 0, 1 << 31, 1<<32 + 5}[r.IntN(4)]
+		for i, off := range distinctValues(r, n) {
+			list[i] = mkEntity(r.IntN(6), off, ln)
+		}
+	case 1:
+		class = "wide/equal-offsets-distinct-lengths"
+		off := []int{0, 7, 1 << 31, 1 << 40}[r.IntN(4)]
+		for i, ln := range distinctValues(r, n) {
+			list[i] = mkEntity(r.IntN(6), off, ln)
+		}
+	case 2:
+		class = "wide/nested"
+		offs, lens := distinctValues(r, n), distinctValues(r, n)
+		sort.Ints(offs)
+		sort.Sort(sort.Reverse(sort.IntSlice(lens)))
+		for i := range list {
+			list[i] = mkEntity(r.IntN(6), offs[i], lens[i])
+		}
+	default:
+		class = "wide/free-mix"
+		for i := range list {
+			off, ln := r.IntN(8), r.IntN(8)
+			if r.IntN(3) == 0 {
+				off = wideValue(r)
+			}
+			if r.IntN(3) == 0 {
+				ln = wideValue(r)
+			}
+			list[i] = mkEntity(r.IntN(6), off, ln)
+		}
+	}
+	r.Shuffle(n, func(a, b int) { list[a], list[b] = list[b], list[a] })
+	return class, list
+}
+
 func genList(r *rand.Rand) (string, []tg.MessageEntityClass) {
+	if r.IntN(5) == 0 {
+		return genWideList(r)
+	}
 	n := r.IntN(41)
 	class := "small-range"
 	offMax, lenMax := 1+r.IntN(6), 1+r.IntN(6)
@@ -236,7 +323,7 @@ func genList(r *rand.Rand) (string, []tg.MessageEntityClass) {
 
 func runC36(c *mon.Ctx) {
 	c.Rule("(a) every list of 0..5 entities with offset, length ∈ {0,1,2} (66 430 lists, enumerated completely) through entity.SortEntities; " +
-		"(b) random lists of 0..40 entities of 6 types, offsets/lengths from tiny ranges (forced ties), wide ranges, mixed, and shuffled nested families; " +
+		"(b) random lists of 0..40 entities of 6 types, offsets/lengths from tiny ranges (forced ties), wide ranges, mixed, and shuffled nested families; 20% lists with values around and beyond 2^31 / 2^32 (2^31-1, 2^31, 2^31+1, 2^32, 2^32+5, 2^40, random 33..62-bit) mixed with small ones: equal lengths/distinct offsets, equal offsets/distinct lengths, nested, free mix; " +
 		"(c) the output of Builder.Complete for the C35 program generator (nesting, overlaps, trims). Oracle: adjacent pairs have ascending offset and, at equal offset, non-ascending length; " +
 		"the output is the same multiset of entity pointers with untouched ranges. distinct non-trivial = distinct (class, list length, has-offset-ties) among inputs that are not already ordered")
 	c.Assume("signature refinement only (never the verdict): a disordered output that equals, element for element, what sort.Sort gives on the same input with the shipped comparator (off< || len>) is labelled matches-known-non-order-comparator; " +
